@@ -542,8 +542,26 @@ pub fn gen_scen(rng: &mut Rng, _thorough: bool) -> Scen {
 }
 
 pub fn gen_case(rng: &mut Rng, thorough: bool, case: u64) -> J {
-    let sc = gen_scen(rng, thorough);
+    let mut sc = gen_scen(rng, thorough);
+    // every twelfth case is a child that dies from a signal - alone (family outputs) or with siblings in flight (family
+    // failure), also after a perfectly valid answer: a death by signal has no exit code, and code that reads "no exit
+    // code" as success or as a rejection is only seen here
+    if case % 12 == 7 {
+        let dies = |sc: &Scen| sc.plan["default"].get("self_signal").is_some()
+            || sc.plan["seeds"].as_object().map(|m| m.values().any(|b| b.get("self_signal").is_some())).unwrap_or(false);
+        let mut tries = 0;
+        while !dies(&sc) && tries < 2000 { sc = gen_scen(rng, thorough); tries += 1; }
+    }
     let mut line = run_scen(&sc, case);
+    if sc.family == "outputs" {
+        // what every child of this run prints, as a JSON tree (or "notJson"), for the schema model `Proc.childOutOf`
+        let d = &sc.plan["default"];
+        let bytes: Option<Vec<u8>> = if let Some(t) = d["stdout"].as_str() { Some(t.as_bytes().to_vec()) } else { d["stdout_hex"].as_str().map(unhex) };
+        if let Some(b) = bytes {
+            line["childDoc"] = match serde_json::from_slice::<J>(&b) { Ok(doc) => crate::enc::enc_json(&doc), Err(_) => json!("notJson") };
+            line["childSignal"] = d.get("self_signal").cloned().unwrap_or(J::Null);
+        }
+    }
     if sc.family == "outputs" {
         // the same scenario with verbose flipped
         let mut twin = sc.clone();
